@@ -116,6 +116,25 @@ let first_sexp (text : string) : sx option =
         | (StAtom _ as a) :: r -> if depth = 0 then Some [a] else take depth (a :: acc) r in
       (match take 0 [] toks with Some ts -> read_one ts | None -> None)
 
+(* the same when what follows cannot even be lexed (an open quote ...): the text up to the parenthesis that closes the first one *)
+let first_sexp (text : string) : sx option =
+  match first_sexp text with
+  | Some t -> Some t
+  | None ->
+      let n = String.length text in
+      let depth = ref 0 and in_bar = ref false and in_str = ref false and cut = ref (-1) and i = ref 0 in
+      while !cut < 0 && !i < n do
+        let c = text.[!i] in
+        if !in_bar then (if c = '|' then in_bar := false)
+        else if !in_str then (if c = '"' then in_str := false)
+        else if c = '|' then in_bar := true
+        else if c = '"' then in_str := true
+        else if c = '(' then incr depth
+        else if c = ')' then (decr depth; if !depth = 0 then cut := !i);
+        incr i
+      done;
+      if !cut < 0 then None else parse_text (s2c (String.sub text 0 (!cut + 1)))
+
 let all_names_ok (st : Sexp.t list) : bool =
   List.for_all (fun s -> name_ok (C05.sym_name (expr_of_sexp s))) st
 
@@ -341,6 +360,43 @@ let handle_cmd id fs =
     end
   end
 
+(* ---------------------------------------------------------------- cmdtext *)
+let handle_cmdtext id fs =
+  let st = Sexp.field "st" fs in
+  let text = Sexp.atom (Sexp.field1 "text" fs) in
+  let origin = Sexp.atom (Sexp.field1 "origin" fs) in
+  let impl = ires_of cmd1 (Sexp.field1 "impl" fs) in
+  let model = parse_command_str (symtab_of st) (s2c text) in
+  let corr = match impl, model with
+    | IOk a, POk b -> sexp_of_cmd a = sexp_of_cmd b
+    | IErr _, PErr | IPanic _, PPanic -> true
+    | _ -> false in
+  let corr_detail = if corr then "" else
+      Printf.sprintf "impl=%s model=%s text=%s" (match impl with IOk x -> sexp_of_cmd x | IErr m -> "err " ^ m | _ -> cls_name impl)
+        (match model with POk m -> sexp_of_cmd m | m -> pres_name m) text in
+  (* oracle: text that is not one well-formed S-expression (judged by the reference front end) must be answered with an error;
+     a well-formed command accepted by the reference must not make the reader panic *)
+  let verdict =
+    match parse_text (s2c text) with
+    | None ->
+        (match impl with
+         | IOk c ->
+             (* trailing material after a complete command is ignored by parse_command *)
+             (match first_sexp text with
+              | Some _ -> `Ok "cmdtext:trailing-material-ignored"
+              | None -> `Fail ("malformed-command-accepted:" ^ origin, sexp_of_cmd c))
+         | IPanic l -> `Fail (panic_key "malformed" l, "")
+         | _ -> `Ok "cmdtext:malformed:err")
+    | Some t ->
+        (match cmd_check (ctx_of st) t, impl with
+         | Some _, IPanic l -> `Fail (panic_key "wellformed" l, "")
+         | Some _, _ -> `Ok ("cmdtext:accepted-by-reference:" ^ cls_name impl)
+         | None, _ -> `Ok ("cmdtext:rejected-by-reference:" ^ cls_name impl))
+  in
+  match verdict with
+  | `Fail (key, d) -> result ~id ~status:"fail" ~key ~detail:(Printf.sprintf "text=%s %s%s" text d (if corr then "" else " ALSO-DIFF " ^ corr_detail)) ()
+  | `Ok key -> if corr then result ~id ~status:"ok" ~key () else result ~id ~status:"diff" ~key:("cmdtext:" ^ origin) ~detail:corr_detail ()
+
 (* ---------------------------------------------------------------- script *)
 let handle_script id fs =
   let st = Sexp.field "st" fs in
@@ -445,6 +501,7 @@ let handle (x : Sexp.t) : string =
   | "text" -> handle_text id fs
   | "val" -> handle_val id fs
   | "cmd" -> handle_cmd id fs
+  | "cmdtext" -> handle_cmdtext id fs
   | "script" -> handle_script id fs
   | "gua" -> handle_gua id fs
   | k -> result ~id ~status:"error" ~key:"kind" ~detail:k ()
